@@ -403,7 +403,7 @@ TB = [
     "Model/C14_Fit1d.v: hand transcription of fit_spline_1d's assembly of A, b, the cost blocks and the full KKT matrix [Q A^T; A 0] (fit_impl.hpp:61-223; both off-diagonal blocks are written explicitly since 7781770) and of the basis recursions (basis.hpp); tied to the code by (i) Gen/BasisC14.v regenerated from the library's constexpr basis code every run and compared entry-wise in Coq, (ii) the constraint residual of the real coefficient vectors under the model's rows, (iii) an independent finite-difference oracle of the same constraints (model rows = oracle rows to 1e-9)",
     "Eigen::SparseLU (the one solver of both branches): modelled as an argument of the model function with the contract 'returns a solution of the system' as theorem premise; checked at run time through the residual of the returned coefficients (1e-6 relative)",
     "Model/C14_Dubins.v (word selection), Model/C14_Reparam.v (forward pass; std::sqrt is a parameter with non-negativity + exactness on the radicands of the run as premises; rows of the backward LP incl. row [4] of 80e48c1), Model/C14_Misc.v (fix-up over an abstract group, fit_bspline point count K+1+istar(t1)): hand transcriptions, tied by extraction (ExtrOcamlBasic only) and comparison with the real code on the same inputs; the LP rows are compared with the rows the library itself passes to lp2d::solve (observed by redirecting the token lp2d to a recording wrapper while reparameterize.hpp is compiled - harness/h_c14_misc.cpp)",
-    "lp2d::solve (external code): not modelled; its contract 'Optimal => the returned point satisfies the rows' is the premise of reparam_lp_row4_radicand_nonneg and is checked at run time on the library's own rows (violated: known finding C14-lp2d-infeasible-optimum)",
+    "lp2d::solve (external code): not modelled; its contract 'Optimal => the returned point satisfies the rows' is the premise of reparam_lp_row4_radicand_nonneg and is checked at run time on the library's own rows (it was violated on the pinned tree - finding C14-lp2d-infeasible-optimum, repaired by 5c36a6e; a violation is reported again if it returns)",
     "extract/C14/driver.ml: exact conversion binary64 -> Q; residual dot products and printed results in binary64; reparameterisation state rounded to binary64 between steps; sqrt argument of the model = binary64 sqrt",
     "harness/h_c14_*.cpp + scripts/props_C14.py: generators, long-double finite-difference oracle (fit_spline_1d constraints), closed-form Dubins word-length oracle, group-product oracle for interpolation / velocity continuity, comparators",
     "Dubins feasibility geometry (tangent circles: each word, when declared feasible, reaches the target) is NOT modelled: checked numerically only (end pose, length vs oracle)",
@@ -429,6 +429,6 @@ CFG = dict(
 TEXT = dict(
     technique="Coq proofs about executable Gallina models (exact-Q constraint system and KKT matrix of fit_spline_1d, abstract-group interpolation fix-up, Dubins word selection, reparameterisation backward-LP rows and forward pass, B-spline point count) + extraction-based correspondence against the real code + independent numeric oracles",
     text="Theorems (Coq 8.16, for all inputs of the models): A x = b of fit_spline_1d means exactly p_i(0)=0, p_i(dt_i)=dx_i, scaled derivative continuity up to InnCnt and the boundary derivatives (every N; PiecewiseLinear, FixedDerCubic<1|2>, MinDerivative<5|6>); row/column counts; the KKT matrix has A and A^T in its off-diagonal blocks and every solution of the KKT system satisfies the constraints; the log fix-up of fit_spline makes every segment end at the next data point in any group and leaves first/last control velocities untouched; the Dubins description returned is the first minimiser among the six candidate words, angles in [0,2pi), straight length >= 0; reparameterisation segments are monotone, start on the grid, start speed <= requested (with explicit hypotheses, and proved counterexamples without them); with row [4] of the backward LP every LP-feasible state keeps the forward radicand non-negative (and without it not); fit_bspline's control-point count K+1+istar(t1) covers the data span and the index of every data time. The real code is run against the models and against independent oracles on stratified inputs (sampling intervals 1e-2..1e2, ratios up to 1e3/10, SO3/SE2/SE3/R^n data, pose/radius grid incl. the d=2R/4R boundaries; every lp2d call of reparameterize_spline observed).",
-    note="Solver accuracy, Dubins feasibility geometry and lp2d are correspondence-only. Fixed since the first round (regression-checked: reverting any one of the commits makes the check fail): MinDerivative KKT system (7781770), reparameterisation gap after an eps-clamped deceleration (80e48c1), fit_bspline NumPts one short (435fdfb), dubins_curve<K!=3> (8514426). Still known: dubins at exact circle tangency returns a non-minimal word (2*pi wrap); lp2d returns infeasible 'optimal' points - which also re-opens the reparameterisation gap at the grid points concerned.",
+    note="Solver accuracy, Dubins feasibility geometry and lp2d are correspondence-only. Fixed since the first round (regression-checked: reverting any one of the commits makes the check fail): MinDerivative KKT system (7781770), reparameterisation gap after an eps-clamped deceleration (80e48c1), fit_bspline NumPts one short (435fdfb), dubins_curve<K!=3> (8514426), lp2d returning infeasible 'optimal' points (5c36a6e; it also re-opened the reparameterisation gap at the grid points concerned). Still known: dubins at exact circle tangency returns a non-minimal word (2*pi wrap).",
     design_ref="DESIGN.md section 5 C14; notes/C14.md",
 )
